@@ -32,6 +32,9 @@ def multiline_comment(text):
 
 
 KNOWN_PRED = {
+    # the tokenizer stores \7b as the character { and the serialiser writes identifiers as stored
+    'C03-hex-escaped-punctuation-in-identifier': lambda kind, case, detail: (
+        case.get('family') == 'ident-hex-escaped-punct' and kind.startswith(('lossy', 'not-fixpoint', 'node-', 'raises-parsed', 'raises-edited'))),
     'C03-ident-leading-digit-escape': lambda kind, case, detail: case.get('family') == 'digit-start-name',
     'C03-acid2-escaped-linebreak-in-property-name': lambda kind, case, detail: (
         kind.startswith(('lossy', 'not-fixpoint')) and str(case.get('file', '')).endswith('sheets/acid2.css') and "'m\\nrgin'" in detail),
@@ -288,6 +291,12 @@ def content_cases(rng, n):
         # an ident ending in an escaped space, after another token (value, selector)
         a_ = rng.choice(['a', 'xy', '']) + '\\ '
         out.append(('ident-escaped-space', rng.choice(['a{x: b %s}', 'a{x: b %s c}', 'a{x: 1px %s!important}', 'b %s c{d:e}', 'a{x:f(b %s)}']) % a_, a_))
+    for _ in range(n // 5):
+        # an ASCII delimiter or punctuation character written as a hex escape inside an identifier
+        c = rng.choice('{}()[];:!,.#@/*+>~=|&$%^`?<\'"')
+        e_ = rng.choice(['a', '', 'xy']) + '\\%x ' % ord(c) + rng.choice(['', 'b'])
+        out.append(('ident-hex-escaped-punct', rng.choice(['a{x: %s}', 'a{x: b %s c}', '%s{d:e}', 'b .%s{d:e}', 'a{%s: 1}', 'a{x:f(%s)}', '@media %s{a{b:c}}',
+                                                            'a[%s]{d:e}', '@x %s;']) % e_ + ' z{y:x}', e_))
     for _ in range(n // 4):
         nm = rng.choice(['1a', '9', '-1x', '2-b'])
         out.append(('digit-start-name', '.\\%x %s{c:d}' % (ord(nm[0]), nm[1:]) if nm[0] != '-' else '.-\\31 x{c:d}', nm))
@@ -391,7 +400,7 @@ def run(ctx):
         except Exception as e:
             ctx.violation('raises-parse', case, '%s: %s' % (type(e).__name__, e), KNOWN_PRED)
             continue
-        if len(dom.cssRules) != (2 if fam.endswith('trailing-backslash') else 1):
+        if len(dom.cssRules) != (2 if fam.endswith('trailing-backslash') or fam == 'ident-hex-escaped-punct' else 1):
             continue   # not accepted as written: nothing to round-trip
         roundtrip(ctx, dom, case, 'content')
     namespace_family(ctx, rng, 40 if quick else 1500)
